@@ -6,6 +6,7 @@ A *case* is plain data:
 Plain values: int / bool / float / tuple of floats (vectors, quaternion xyz) / 32-hex str (LLUUID) / dotted quad (IPADDR)
 / bytes or str (Fixed, Variable).  In a `fill` case a variable may be absent from its dict (left unset).
 """
+import math
 import socket
 import struct
 
@@ -162,8 +163,24 @@ def _var_bytes(draw, n, kind):
     return body
 
 
-def value_strategy(var, *, zc=False, finite=False, xml_safe=False, allow_str=True, dbl_nul=True):
+def _near_unit(t):
+    """three F32 whose squared length is a chosen amount off 1: rotations as peers send them (unit up to rounding, or a hair over)"""
+    x, y, z, sq = t
+    n = math.sqrt(x * x + y * y + z * z)
+    if n < 1e-3:
+        x, y, z, n = 0.0, 0.0, 1.0, 1.0
+    k = math.sqrt(sq) / n
+    return tuple(struct.unpack("<f", struct.pack("<f", c * k))[0] for c in (x, y, z))
+
+
+NEAR_UNIT = st.tuples(st.floats(-1, 1, width=32), st.floats(-1, 1, width=32), st.floats(-1, 1, width=32),
+                      st.sampled_from([1.0, 1.0 + 3e-6, 1.00002, 1.00005, 1.00009, 1.0002, 0.99995, 0.5])).map(_near_unit)
+
+
+def value_strategy(var, *, zc=False, finite=False, xml_safe=False, allow_str=True, dbl_nul=True, quat_near_unit=False):
     t = var.type
+    if t == T.MVT_LLQuaternion and quat_near_unit:
+        return st.one_of(st.tuples(*[_floats(32, finite)] * 3), NEAR_UNIT)
     if t in INT_RANGES:
         return _ints(*INT_RANGES[t])
     if t == T.MVT_BOOL:
@@ -218,7 +235,7 @@ def _count_strategy(block, nvars):
 
 @st.composite
 def message_case(draw, names=None, profile="full", finite=False, xml_safe=False, allow_str=True, with_header=True,
-                 dbl_nul=True, omit_trailing=True):
+                 dbl_nul=True, omit_trailing=True, quat_near_unit=False):
     name = draw(st.sampled_from(names or default_names()))
     tmpl = TEMPLATES[name]
     fill = profile == "fill"
@@ -247,7 +264,8 @@ def message_case(draw, names=None, profile="full", finite=False, xml_safe=False,
             for v in b.variables:
                 if partial and draw(st.booleans()):
                     continue
-                d[v.name] = draw(value_strategy(v, zc=zc, finite=finite, xml_safe=xml_safe, allow_str=allow_str, dbl_nul=dbl_nul))
+                d[v.name] = draw(value_strategy(v, zc=zc, finite=finite, xml_safe=xml_safe, allow_str=allow_str, dbl_nul=dbl_nul,
+                                                quat_near_unit=quat_near_unit))
             insts.append(d)
         blocks.append([b.name, insts])
     case = {"name": name, "flags": flags, "pid": pid, "acks": acks, "extra": extra, "fill": fill, "blocks": blocks}
